@@ -137,8 +137,11 @@ fn invocation(rng: &mut Rng, max_index: usize, leaves: &[String], depth: u32) ->
     let n = if rng.chance(1, 30) { arity + 1 } else { arity };
     let mut args: Vec<String> = Vec::new();
     for _ in 0..n {
-        let a = match weighted(rng, &[6, if depth < 2 { 3 } else { 0 }, 2, 2]) {
+        let a = match weighted(rng, &[6, if depth < 2 { 3 } else { 0 }, 2, 2, 1]) {
             0 => rng.pick(leaves).clone(),
+            // the bare name of a function-like macro: only an invocation once the body it is
+            // substituted into supplies the parentheses
+            4 => FUNCS[rng.below(FUNCS.len() as u64) as usize].0.to_string(),
             1 => invocation(rng, max_index, leaves, depth + 1),
             2 => format!("( {} , {} )", rng.pick(leaves), rng.pick(leaves)),
             _ => String::new(),
@@ -199,6 +202,15 @@ fn function_define(rng: &mut Rng) -> String {
         body.push(e);
     }
     let mut text = body.join(" + ");
+    if arity >= 2 && rng.chance(1, 6) {
+        // nothing but parameters and punctuation: the invocation only exists after substitution
+        text = match rng.below(3) {
+            0 => "a(b)".to_string(),
+            1 => "a b".to_string(),
+            _ => "a ( b ) + 1".to_string(),
+        };
+        return format!("#define {name}({}) {}", params.join(","), text);
+    }
     if k > 0 && rng.chance(1, 4) {
         // a replacement that ends in the name of a function-like macro: the invocation is
         // completed by a "(" that follows the use
@@ -572,17 +584,22 @@ pub fn generate(rng: &mut Rng, mode: Mode, form: Form) -> Graph {
                     lines.push(hash(rng, "#endif"));
                     open.pop();
                 }
-                7 => lines.push(
-                    [
-                        "",
-                        "// comment",
-                        "/* comment */",
-                        "   ",
-                        "// \u{2500}\u{2500}\u{2500} helpers \u{2500}\u{2500}\u{2500}",
-                        "/* \u{a9} 2023 */",
-                    ][rng.below(6) as usize]
-                        .to_string(),
-                ),
+                7 => {
+                    let l = match rng.below(8) {
+                        6 => format!("// {}", multibyte_text(rng)),
+                        7 => format!("/* {} */", multibyte_text(rng)),
+                        k => [
+                            "",
+                            "// comment",
+                            "/* comment */",
+                            "   ",
+                            "// \u{2500}\u{2500}\u{2500} helpers \u{2500}\u{2500}\u{2500}",
+                            "/* \u{a9} 2023 */",
+                        ][k as usize]
+                            .to_string(),
+                    };
+                    lines.push(l);
+                }
                 9 => lines.push(hash(rng, "#pragma once")),
                 10 => {
                     let m = *rng.pick(MACROS);
@@ -763,4 +780,25 @@ pub fn preprocess_task(g: &Graph) -> TaskSpec {
     let mut t = TaskSpec::preprocess(0, &g.entry);
     t.defines = g.defines.clone();
     t
+}
+
+/// Words of two- and three-byte characters: over many draws every UTF-8 continuation byte
+/// (0x80-0xBF) and every lead byte of those lengths occurs, at every alignment
+pub fn multibyte_text(rng: &mut Rng) -> String {
+    let mut out = String::new();
+    for w in 0..rng.range(1, 5) {
+        if w > 0 {
+            out.push(' ');
+        }
+        for _ in 0..rng.range(1, 7) {
+            let c = match rng.below(4) {
+                0 => rng.range(0xA1, 0xFF),
+                1 => rng.range(0x100, 0x7FF),
+                2 => rng.range(0x3041, 0x30FE),
+                _ => rng.range(0x4E00, 0x9FFF),
+            };
+            out.push(char::from_u32(c as u32).unwrap_or('\u{e9}'));
+        }
+    }
+    out
 }
